@@ -9,6 +9,7 @@ import DdoModel.Engines.ExModelMcp
 import DdoModel.Engines.ExModelGolomb
 import DdoModel.Engines.ExModelSrflp
 import DdoModel.Engines.ExModelTalentsched
+import DdoModel.Engines.ExModelLcs
 /-! Driver engine `exmodel` (C16, knapsack and misp): every observation the harness made on the example's own `Problem`,
     `Relaxation` and `StateRanking` implementations (compiled into the harness from the example's source file) is
     recomputed with the Lean model `KnapsackDp.lean` — the model the well-formedness theorems of `KnapsackModel.lean`
@@ -217,6 +218,7 @@ def exmodelEngine (c i : List String) : Option Res := do
   | [["golomb"], toks, _] => golombCase toks i
   | [["srflp"], toks, opts] => srflpCase toks opts i
   | [["talentsched"], toks, u] => talentschedCase toks u i
+  | [["lcs"], toks, _] => lcsCase toks i
   | _ => none
 
 end Ddo.Engines
